@@ -73,11 +73,21 @@ func (cc *CheckCtx) runBounded(bs BoundedSpec) {
 	var fails []string
 	info := map[string]any{"contract": bs.Contract, "name": bs.Name, "test": bs.File + ":" + bs.Test}
 	sawSummary := false
-	sc := bufio.NewScanner(&out)
-	sc.Buffer(make([]byte, 1<<20), 1<<20)
+	// lines of any length (a scanner gives up on a long line and would hide the summary)
+	rd := bufio.NewReaderSize(&out, 1<<16)
 	var tail []string
-	for sc.Scan() {
-		line := strings.TrimSpace(sc.Text())
+	for {
+		raw, rerr := rd.ReadString('\n')
+		if raw == "" && rerr != nil {
+			break
+		}
+		line := strings.TrimSpace(raw)
+		if strings.HasPrefix(line, "{\"ts\"") {
+			continue // interpreter log lines
+		}
+		if len(line) > 4000 {
+			line = line[:4000] + " ...(cut)"
+		}
 		tail = append(tail, line)
 		if len(tail) > 30 {
 			tail = tail[1:]
